@@ -261,7 +261,7 @@ impl Prop for C10 {
         json!({"idx": idx, "block": c.block, "direct": c.direct, "pdus": brief, "forms": c.pdus.iter().map(|p| (p.long_form, p.first_byte)).collect::<Vec<_>>()})
     }
     fn rule(&self) -> String {
-        "cases = sequences of fast-path output PDUs delivered to a really activated client (raw stack) through RdpClient::read; PDUs of 0..3 updates over an alphabet of 19 updates (bitmap updates with 0,1,2,3 rectangles, with/without compression header, and 13 non-bitmap/unknown update codes); sequences of <=2 (<=3) PDUs, delivered one frame at a time (lock step) and all at once in one segment before the first read (both length forms, so that an empty PDU of either form is followed by more PDUs); every rectangle field at {0,1,0x7FFF,0xFFFF} one at a time and all-max, depths x flag combinations x data lengths {0,1,2,255,256}, short and long length forms, reserved header bits; every non-bitmap update code carrying a body that is a valid bitmap update payload; short-form PDUs of 120..127 bytes; long-form PDUs whose total length is k*256-1..k*256+3 (k=1..8) and around 4 KiB / 16 KiB / the 15-bit limit; 1023..3000 rectangles in one update and 1023..5000 updates in one PDU; data lengths up to the 15-bit frame limit and beyond it (0x7FFF..0xFFEC) through global::Client::read directly. Oracle: callback sequence == reference parser's rectangle list (count, order, nine fields, data). Non-trivial: >= 2 updates in total or a non-default field.".into()
+        "cases = sequences of fast-path output PDUs delivered to a really activated client (raw stack) through RdpClient::read; PDUs of 0..3 updates over an alphabet of 19 updates (bitmap updates with 0,1,2,3 rectangles, with/without compression header, and 13 non-bitmap/unknown update codes); sequences of <=2 (<=3) PDUs, delivered one frame at a time (lock step) and all at once in one segment before the first read (both length forms, so that an empty PDU of either form is followed by more PDUs); every rectangle field at {0,1,0x7FFF,0xFFFF} one at a time and all-max, depths x flag combinations x data lengths {0,1,2,255,256}, short and long length forms, reserved header bits; every non-bitmap update code carrying a body that is a valid bitmap update payload; short-form PDUs of 120..127 bytes; long-form PDUs whose total length is k*256-1..k*256+3 (k=1..8) and around 4 KiB / 16 KiB / the 15-bit limit; 1023..3000 rectangles in one update and 1023..5000 updates in one PDU; data lengths up to the 15-bit frame limit and beyond it (0x7FFF..0xFFEC) through global::Client::read directly. Oracle: callback sequence == reference parser's rectangle list (count, order, nine fields, data). Non-trivial: >= 2 updates in total or a non-default field. The cases whose frames sit in one segment are delivered whole or 1, 3 or 7 bytes per read call (by case index).".into()
     }
     fn assumptions(&self) -> Vec<String> {
         vec!["scope as in the statement: unfragmented, uncompressed updates (fragmentation and compression bits of the update header are 0); numberRectangles consistent with the rectangles present".into()]
@@ -286,6 +286,11 @@ impl Prop for C10 {
         let mut want: Vec<Rect> = vec![];
         let mut total_updates = 0;
         if c.coalesced {
+            // the segment reaches the client whole, or 1, 3 or 7 bytes per read call (by case index)
+            let cap = [0usize, 1, 3, 7][(idx % 4) as usize];
+            if cap > 0 {
+                conn.sh.borrow_mut().read_plan = crate::memlink::ReadPlan::Cap(cap);
+            }
             for p in &c.pdus {
                 let payload = fastpath::updates_payload(&p.updates);
                 let long = p.long_form || payload.len() + 2 > 0x7f;
